@@ -201,13 +201,14 @@ class SymEnv(BaseEnv):
                 a[ix] = C(real(name + '.re'), real(name + '.im')) if cplx else real(name)
         return a
 
-    def pos_tensor(self, name, shape, pattern, dtype='float64', source='torch'):
-        """dense array, strictly positive symbols at the pattern positions, structural zeros elsewhere (A-scalars)"""
+    def pos_tensor(self, name, shape, pattern, dtype='float64', source='torch', phase_idx=None):
+        """dense array, strictly positive symbols at the pattern positions, structural zeros elsewhere (A-scalars);
+        complex dtypes: entry k carries the fixed unit phase PHASES[phase_idx[k]] (default: k)"""
         a = np.empty(tuple(shape), dtype=object)
         a[...] = 0
         for k, ix in enumerate(pattern):
             m = apoly.new_pos(name)
-            a[tuple(ix)] = phased(m, k) if dtype.startswith('complex') else m
+            a[tuple(ix)] = phased(m, phase_idx[k] if phase_idx else k) if dtype.startswith('complex') else m
         self.inputs[name] = {'kind': 'pos_tensor', 'dtype': dtype, 'shape': list(shape), 'syms': a.copy()}
         if source == 'numpy':
             return symnumpy.ndarray(a, DT[dtype])
@@ -509,12 +510,12 @@ class ExactEnv(BaseEnv):
         if not bool(cond):
             raise PathAbort('assume false')
 
-    def pos_tensor(self, name, shape, pattern, dtype='float64', source='torch'):
+    def pos_tensor(self, name, shape, pattern, dtype='float64', source='torch', phase_idx=None):
         a = np.empty(tuple(shape), dtype=object)
         a[...] = 0
         for k, ix in enumerate(pattern):
             m = apoly.P.const(abs(seeded_fraction(self.seed, name, k)))
-            a[tuple(ix)] = phased(m, k) if dtype.startswith('complex') else m
+            a[tuple(ix)] = phased(m, phase_idx[k] if phase_idx else k) if dtype.startswith('complex') else m
         if source == 'numpy':
             return symnumpy.ndarray(a, DT[dtype])
         return st.Tensor(a, DT[dtype])
